@@ -67,21 +67,22 @@ theorem operate_assign_existing (tr : Tr α) (lhs : Str) (e : Ex) (c : List α)
 /-- **T3c' (`lhs = <number expression>`, existing feature)**: the column is overwritten in place with
 the constant (regression statement for fix 79feaf2). -/
 theorem operate_assign_existing_number (tr : Tr α) (lhs : Str) (e : Ex) (x : α)
-    (hop : isOperatorTok lhs = none) (hlk : (lookup lhs tr.feats).isSome)
+    (hop : isOperatorTok lhs = none) (hr : isReserved lhs = false) (hlk : (lookup lhs tr.feats).isSome)
     (hw : WFx e) (hn : tr.n ≠ 0) (hnt : NoTemps tr) (hl : NoLitNames tr) (hd : denoteM tr e = .ok (.lit x)) :
     operateTokens tr (lhs :: (Expr.post e ++ [['=']])) true =
       (.ok none, { tr with feats := setKey lhs (List.replicate tr.n x) tr.feats }) :=
-  operateTokens_assign_existing_lit tr lhs e x hop hlk hw hn hnt hl hd
+  operateTokens_assign_existing_lit tr lhs e x hop hr hlk hw hn hnt hl hd
 
-/-- **T3d (`x = e`, `y = e`, `z = e`, vector value)**: the coordinate is written; the table of
-features is untouched (regression statement for fix 3613032: the source feature is not deleted).
-`_partial`: a right-hand side that is a pure number (`x=3`) is *not* covered — the code raises
-KeyError there (known finding `coordinate-assigned-constant`). -/
-theorem operate_assign_coordinate_partial (tr : Tr α) (lhs : Str) (e : Ex) (c : List α)
+/-- **T3d (`x = e`, `y = e`, `z = e`)**: the coordinate is written with the value of `e` at every
+observation — whether `e` has a vector value or is a pure number expression such as `3` or `1+2`,
+which is written at every observation (regression statement for fix 144a468: `x=3` used to raise
+KeyError) —; the table of features is untouched (regression statement for fix 3613032: the source
+feature is not deleted), the other coordinates and the timestamps are unchanged, nothing is returned. -/
+theorem operate_assign_coordinate (tr : Tr α) (lhs : Str) (e : Ex) (v : Val α)
     (hc : lhs = ['x'] ∨ lhs = ['y'] ∨ lhs = ['z'])
-    (hw : WFx e) (hn : tr.n ≠ 0) (hnt : NoTemps tr) (hl : NoLitNames tr) (hd : denoteM tr e = .ok (.vec c)) :
-    operateTokens tr (lhs :: (Expr.post e ++ [['=']])) true = (.ok none, setCoord tr lhs c) :=
-  operateTokens_assign_coord tr lhs e c hc hw hn hnt hl hd
+    (hw : WFx e) (hn : tr.n ≠ 0) (hnt : NoTemps tr) (hl : NoLitNames tr) (hd : denoteM tr e = .ok v) :
+    operateTokens tr (lhs :: (Expr.post e ++ [['=']])) true = (.ok none, setCoord tr lhs (v.toVec tr.n)) :=
+  operateTokens_assign_coord tr lhs e v hc hw hn hnt hl hd
 
 /-- **T3 (composition parser ∘ evaluator, token level)**: parse the printed statement `#output = e`
 (minimal parentheses, calls printed `f@(…)` as the rewriting produces them) with `makeRPN`'s table,
@@ -224,6 +225,20 @@ example : PlainNames eEx ∧ NoQuote eEx := by
 /-- the character-level parser on the string of the statement -/
 example : stmtString outputName eEx = "#output=(a+b)*2-SUM@(a)".toList := by decide +kernel
 example : makeRPN (stmtString outputName eEx) = .ok (outputName :: (Expr.post eEx ++ [['=']])) := by rfl
+/-- `y=1+2` (fix 144a468): the number is written at every observation, the table is untouched -/
+example : denoteM trEx (.bin '+' (.num ['1']) (.num ['2'])) = .ok (.lit 3) := by rfl
+example : operateTokens trEx [['y'], ['1'], ['2'], ['+'], ['=']] true = (.ok none, setCoord trEx ['y'] [3, 3, 3]) := by rfl
+/-- the same from the string, through the whole rewriting chain -/
+example : (operate trEx "y=1+2".toList).1.toOption = some none ∧ (operate trEx "y=1+2".toList).2.ys = [3, 3, 3]
+    ∧ (operate trEx "y=1+2".toList).2.feats = trEx.feats := by decide +kernel
+/-- a parenthesis directly after a comparison operator stays a parenthesis (fix 6716f85), while a function
+name followed by `(` is still turned into a call -/
+example : funcAt "c=a>(b+1)".toList = "c=a>(b+1)".toList ∧ funcAt "c=a<(b)%(a)".toList = "c=a<(b)%(a)".toList
+    ∧ funcAt "D(a)>(SUM(b))".toList = "D@(a)>(SUM@(b))".toList := by decide +kernel
+example : ((preprocess "a>(b+1)".toList).bind (fun p => makeRPN p.1)).toOption
+    = some [outputName, ['a'], ['b'], ['1'], ['+'], ['>'], ['=']] := by decide +kernel
+example : (operate trEx "a>(b+1)".toList).1.toOption = some (some [0, 0, 0])
+    ∧ (operate trEx "(a+3)>(b+1)".toList).1.toOption = some (some [1, 0, 1]) := by decide +kernel
 /-- left associativity and precedence with the real table: `a-b-c*d` -/
 example : rpn pyLvl 9 20 (shw pyLvl 9 (.bin '-' (.bin '-' (.atom "a") (.atom "b")) (.bin '*' (.atom "c") (.atom "d"))))
     = ["a", "b", "-", "c", "d", "*", "-"] := by decide
